@@ -206,6 +206,97 @@ def exhaustive_small(W=2, cap=None, nev=4, steps=(0, 1, 3)):
     return out
 
 
+# ------------------------------------------------------------------ Engine path (join programs)
+ENGINE_WINDOWS = [("100ms", 100), ("500ms", 500), ("2s", 2000), ("1m", 60000)]
+
+
+def gen_engine_case(rng, maxlen=12):
+    """a case in the shape of gen_case, restricted to what a VPL join program expresses: every source S<i> is a
+    stream over event type T<i>, all sources keyed on f0, default cap"""
+    nsrc = 2 if rng.chance(2, 3) else 3
+    wname, W = rng.choice(ENGINE_WINDOWS)
+    kind = rng.choice(["inorder", "inorder", "inorder", "ooo"])
+    nkeys = rng.range(1, 3)
+    ops = []
+    t = 0
+    for i in range(rng.range(2, maxlen)):
+        t += rng.choice([0, 0, 1, max(1, W // 4), max(1, W // 2), W, W + 1, 2 * W + 3, max(1, W // 10), 11, 1001])
+        ts = t
+        if kind == "ooo" and rng.chance(1, 2):
+            ts = t - rng.choice([1, W // 2 + 1, W, W + 1, 2 * W])
+        s = rng.below(nsrc)
+        fields = [] if rng.chance(1, 14) else [(0, rng.below(nkeys))]
+        if rng.chance(2, 3):
+            fields.append((2, 10 + rng.below(5)))
+        fields.append((IDF, 1000 + i))
+        ops.append((s, 100 + s, ts, fields))
+    return {"sources": list(range(nsrc)), "keys": {s: 0 for s in range(nsrc)}, "window": W, "wname": wname, "cap": None, "ops": ops, "kind": kind}
+
+
+def engine_program(c):
+    n = len(c["sources"])
+    lines = ["stream S%d = T%d" % (i, i) for i in range(n)]
+    on = " and ".join("S%d.f0 == S%d.f0" % (i, i + 1) for i in range(n - 1))
+    emit = ", ".join("id%d: S%d.f%d" % (i, i, IDF) for i in range(n))
+    lines.append("stream J = join(%s)\n    .on(%s)\n    .window(%s)\n    .emit(%s)" % (", ".join("S%d" % i for i in range(n)), on, c["wname"], emit))
+    return "\n".join(lines) + "\n"
+
+
+def j_engine(c):
+    return {"program": engine_program(c),
+            "events": [{"type": name(ty), "ts_ms": ts, "fields": [["f%d" % f, {"s": "v%d" % v}] for f, v in fields]} for s, ty, ts, fields in c["ops"]]}
+
+
+def engine_choice(c, ans):
+    """per arrival: None | {source: chosen op index} | ('bad', text), read from the id<i> fields of the emitted events"""
+    if "error" in ans or "panic" in ans:
+        return None
+    res = []
+    for outs in ans["outs"]:
+        if not outs:
+            res.append(None)
+        elif len(outs) != 1 or "error" in outs[0]:
+            res.append(("bad", json.dumps(outs)[:200]))
+        else:
+            d = {k: v for k, v in outs[0]["fields"]}
+            ch = {}
+            for s in c["sources"]:
+                v = d.get("id%d" % s)
+                ch[s] = int(v["s"][1:]) - 1000 if isinstance(v, dict) and "s" in v else ("bad", json.dumps(v))
+            res.append(ch)
+    return res
+
+
+def judge_engine(c, ans):
+    if "error" in ans or "panic" in ans:
+        return ["engine: " + json.dumps(ans)[:300]]
+    msgs = []
+    got = engine_choice(c, ans)
+    for i, (e, g) in enumerate(zip(expected(c), got)):
+        op = c["ops"][i]
+        what = "arrival %d (%s key v%s t=%d)" % (i, name(op[0]), key_of(c, op), op[2])
+        if e is None and g is not None:
+            msgs.append("%s: the join program emitted %s although not every source has a same-key event within the window" % (what, g))
+        elif e is not None and g is None:
+            msgs.append("%s: the join program emitted nothing although every source has a same-key event within the window (arrivals %s)" % (what, sorted(e.values())))
+        elif e is not None and g != e:
+            msgs.append("%s: the join program's output carries arrivals %s, the most recently arrived in-window events are %s" % (what, g, e))
+    return msgs
+
+
+def model_choice(c, mrun):
+    """the chosen arrivals per source read from the model's rendered outputs ("<src>.9=<id>")"""
+    res = []
+    for part in mrun.split(";"):
+        o = part.split("#")[0]
+        if o == "-":
+            res.append(None)
+            continue
+        d = dict(kv.split("=") for kv in o.split(":", 1)[1].split(","))
+        res.append({s: int(d["%d.%d" % (s, IDF)]) - 1000 for s in c["sources"]})
+    return res
+
+
 def gen_pp(rng):
     n = rng.choice([0, 1, 2, 3, 4, 5, 6, 7, 8, 9, 12, 16, 17, 31])
     ts = [rng.below(6) for _ in range(n)]
